@@ -25,14 +25,19 @@ let parse_op op =
   | ["last"] -> Some ALast
   | ["len"] -> Some ALen
   | ["ss"; n] -> Some (ASetSize (nat_of_int (int_of_string n)))
+  | ["sort"] -> Some ASort
   | _ -> None
+
+(* the C library's qsort with the harness' comparison of 8-byte integers: any sorting function
+   will do, equal integers are indistinguishable *)
+let qsort l = List.sort (fun a b -> compare (int_of_z a) (int_of_z b)) l
 
 (* returns (model tokens, spec tokens, class) *)
 let run_arr ops =
   let a = ref arr_create and spec = ref [] in
   let mt = ref [] and st = ref [] in
   let ub = ref false and nontriv = ref 0 in
-  let drained = ref false and grown = ref 0 and enomem = ref 0 in
+  let drained = ref false and grown = ref 0 and enomem = ref 0 and sorted = ref false in
   let fin = List.mem "fin" ops in
   List.iter (fun op ->
     if op <> "" && op <> "fin" then
@@ -43,11 +48,11 @@ let run_arr ops =
     | None -> mt := "BADOP" :: !mt; st := "BADOP" :: !st
     | Some o ->
       let before = int_of_nat (arr_len !a) in
-      let (a', r) = arr_step (not refuse) !a o in
+      let (a', r) = arr_step qsort (not refuse) !a o in
       (* reference: the list step; under a refusing allocator the only other admissible
          outcome (theorem C19_array_run_alloc_refines) is ARES_ENOMEM with the list unchanged,
          taken exactly when the model takes it *)
-      let (l', r') = match aspec_step !spec o, r with
+      let (l', r') = match aspec_step qsort !spec o, r with
         | (_, RStatus Z0), RStatus s when refuse && s = aRES_ENOMEM -> incr enomem; (!spec, r)
         | sr, _ -> sr in
       (match r with RUB -> ub := true | _ -> ());
@@ -55,6 +60,7 @@ let run_arr ops =
       (* the offset would reach alloc_cnt: the state that used to reject every later insert *)
       if before = 1 && int_of_nat (arr_len a') = 0 && int_of_nat (a_off !a) + 1 = List.length (a_cells !a) then drained := true;
       if List.length (a_cells a') > List.length (a_cells !a) then incr grown;
+      (match o with ASort when before >= 2 -> sorted := true | _ -> ());
       a := a'; spec := l';
       mt := res_str r :: !mt; st := res_str r' :: !st) ops;
   let dump l = "dump=" ^ String.concat "," (List.map string_of_z l) in
@@ -67,6 +73,6 @@ let run_arr ops =
   end;
   (String.concat " " (List.rev !mt), String.concat " " (List.rev !st),
    if !ub then "model-ub" else if !nontriv < 2 then "trivial"
-   else "arr" ^ (if !drained then "-drained" else "") ^ (if !grown >= 3 then "-grow3" else "") ^ (if !enomem > 0 then "-enomem" else ""))
+   else "arr" ^ (if !drained then "-drained" else "") ^ (if !grown >= 3 then "-grow3" else "") ^ (if !enomem > 0 then "-enomem" else "") ^ (if !sorted then "-sort" else ""))
 
 let () = Dsa_reg.register "arr" run_arr
